@@ -70,7 +70,7 @@ CHECKS["C04"] = {
         {"name": "num", "quick_n": 20000, "thorough_n": 300000, "model_is_oracle": True},
         {"name": "valrel", "quick_n": 3000, "thorough_n": 40000},
     ],
-    "explanation": "The model's built-in bodies are the formal semantics (IEEE arithmetic through Lean Float, bit-exact trunc/floor/ceil/round/min/max/abs, float->int as amd64 does it, shortest-round-trip number rendering, strconv quoting, rune-counted length, order-preserving de-duplicating set functions, get/isset, string conversion, calendar rendering of instants); proved laws: set functions are total, duplicate-free, keep first-occurrence order with the documented membership (union/intersect/diff_law), get agrees with isset, get is total, the comparison definitions (C04.*). Tie: full-value projection of the eval stream over boundary pools, the num stream (parse/format/convert, 60k cases per run, bit for bit), the valrel stream.",
+    "explanation": "The model's built-in bodies are the formal semantics (IEEE arithmetic through Lean Float, bit-exact trunc/floor/ceil/round/min/max/abs, float->int as amd64 does it, shortest-round-trip number rendering, strconv quoting, rune-counted length, order-preserving de-duplicating set functions, get/isset, string conversion, calendar rendering of instants); proved laws: set functions are total, duplicate-free, keep first-occurrence order with the documented membership (union/intersect/diff_law), get agrees with isset, get is total, the comparison definitions; rune-counted length (len_law, len_runes); the equations of string() on every kind of value and string(x)=String() exactly where it holds, with kernel-checked differences elsewhere (string_prim/list/obj/map, string_eq_String); exact ==/!= on strings and bools and the order of instants by (sec,nsec) whatever the zone (eq_ne_exact, time_cmp, time_cmp_ns); numeric literals: radix forms are the value written when < 2^63 and rejected otherwise, integer forms are the float64 of the number written and exact below 2^53, float forms decompose into mantissa and decimal exponent (radix_literal, int_literal(_exact,_round_trip), float_literal); every word of the string / raw-string patterns decodes item by item (str_literal, raw_literal; rejected: exactly \\/, raw newline, lone surrogates); absolute date-times: civilFromDays inverts a naive day count for every date from 0000-03-01 on with no upper bound (civil_round_trip, day_round_trip), an absolute form is displayed as itself and a character-level reader reads the rendering back to the instant (strtotime_absolute, time_literal_absolute, time_text_reader) (C04.*). Tie: full-value projection of the eval stream over boundary pools, the num stream (parse/format/convert, 60k cases per run, bit for bit), the valrel stream.",
     "assumptions": ["math.Pow and regexp/strtotime are externals: pow is exercised on exactly representable cases, regexp and strtotime results travel as tables computed by the real functions"],
 }
 
